@@ -163,8 +163,8 @@ def USpec.prog (cfg : UCfg) (draws : Nat → Int) : USpec → Prog String
       pure (match r with | .ok xs => s!"ok:{renderServers xs}" | .error e => tagUErr e)
   | .raw c =>
     match c with
-    | .w .add svr res => .call (.addServer svr res) fun _ => pure "ok"
-    | .w .update svr res => .call (.updateServer svr res) fun _ => pure "ok"
+    | .w .add svr res => .call (.addServer svr res) fun r => pure (match r with | .ok s => s!"ok:{renderServer s}" | .error e => tagRErr e)
+    | .w .update svr res => .call (.updateServer svr res) fun r => pure (match r with | .ok s => s!"ok:{renderServer s}" | .error e => tagRErr e)
     | .w .remove svr res => .call (.removeServer svr res) fun _ => pure "ok"
     | .q (.insAdd id a) => .call (.insAdd ⟨id, a⟩) fun _ => pure "ok"
     | .q (.enqueue p after before) => .call (.enqueue p after before) fun _ => pure "ok"
